@@ -544,7 +544,7 @@ func vrSubst(s, v, x string) string {
 func VerifHarness_Diverge() {
 	form := errors.VerifNdIntRange("form", 0, len(vrDivergeForms)-1)
 	exit := errors.VerifNdIntRange("exit", 0, len(vrDivergeExits)-1)
-	ctx := errors.VerifNdIntRange("ctx", 0, 3)
+	ctx := errors.VerifNdIntRange("ctx", 0, 4)
 	t1 := errors.VerifNdIntRange("t1", 0, vrScalarTypes-1)
 	t2 := errors.VerifNdIntRange("t2", 0, vrScalarTypes-1)
 	x := vrDivergeExits[exit]
@@ -556,6 +556,54 @@ func VerifHarness_Diverge() {
 			return "  loop {\n" + stmts + "    break;\n  }\n"
 		}
 		return stmts
+	}
+	if ctx == 4 {
+		// the construct is a statement whose non-diverging branch yields nothing: its recorded type is null (not never),
+		// so the statements behind it are reachable and no value is dropped
+		if t1 != 0 || t2 != 0 {
+			errors.VerifReached("not-applicable")
+			return
+		}
+		stmt := vrSubst(vrDivergeForms[form], "println(0)", x)
+		code4 := vrMain(wrap("  " + stmt + ";\n  println(1);\n"))
+		verifDebug("program", code4)
+		var an4 verifAnalysis
+		panicked4, pmsg4 := errors.VerifPanics(func() { an4 = verifAnalyze(code4, nil, nil, true) })
+		if panicked4 {
+			vrAnalyzerPanicked(pmsg4)
+			return
+		}
+		errors.VerifReached("analyzed")
+		vrSpansHook(an4, code4)
+		if an4.hasError {
+			errors.VerifTag("diag", an4.describe())
+		}
+		errors.VerifAssert("well-typed-program-accepted", !an4.hasError)
+		if an4.hasError {
+			return
+		}
+		for _, f := range an4.modules[verifFile].Functions {
+			if f.Ident.Ident() != "main" {
+				continue
+			}
+			stmts := f.Body.Statements
+			if inLoop {
+				loop, ok := stmts[0].(ast.AnalyzedLoopStatement)
+				if !ok {
+					errors.VerifAssert("loop-statement-recorded", false)
+					return
+				}
+				stmts = loop.Body.Statements
+			}
+			es, ok := stmts[0].(ast.AnalyzedExpressionStatement)
+			if !ok {
+				errors.VerifAssert("expression-statement-recorded", false)
+				return
+			}
+			errors.VerifReached("typed")
+			errors.VerifAssert("recorded-expression-type", es.Expression.Type().Kind() == ast.NullTypeKind)
+		}
+		return
 	}
 	var code string
 	switch ctx {
